@@ -842,7 +842,7 @@ pub fn check(ctx: &Ctx) -> Vec<PartReport> {
             require: vec![],
         },
     ));
-    let n = ctx.cases(2_000_000, 20_000_000);
+    let n = ctx.cases(5_000_000, 30_000_000);
     out.push(run_part(
         ctx,
         PartSpec {
